@@ -93,12 +93,16 @@ def chain_pairs(func, field_suffix=None):
             if e["k"] == "assign" and _enum_of(e.get("const")) and (field_suffix is None or (e["lhs"].get("f") or "").endswith(field_suffix)):
                 en = _enum_of(e["const"])
                 break
+            if e["k"] == "return" and _enum_of(e.get("const")) and field_suffix is None:
+                # `if (match(lit)) return Enum::X;` in a helper / lambda the chain was moved into
+                en = _enum_of(e["const"])
+                break
         if en:
             out.append((lit, en))
     return out
 
 
-_ROW = re.compile(r'\{\s*"([^"]*)"\s*,\s*[^,{}]*,\s*([A-Za-z_][\w:]*)\s*\}')
+_ROW = re.compile(r'\{\s*"([^"]*)"\s*,(?:[^,{}]*,)*?\s*([A-Za-z_]\w*(?:::\w+)+)\s*\}')
 
 
 def static_table(init_text):
@@ -132,3 +136,39 @@ def assigned_enums(func, field_suffix=None):
             if isinstance(r, str) and r.startswith("e:"):
                 out.add(r[2:])
     return out
+
+
+def reader_map(prog, func):
+    """{literal: enumerator} a reader maps tokens with, whatever idiom it uses: an if-chain of comparisons with literals whose arms
+    store an enumerator (chain_map), and/or static lookup tables local to the function whose rows are {"literal", ..., Enum::X}."""
+    out = dict(chain_map(func))
+    for v in prog.vars:
+        fn_ = v.get("func") or ""
+        if fn_ and (func.base in fn_ or func.name in fn_):
+            for lit, en in static_table(v.get("init")).items():
+                out.setdefault(lit, en)
+    return out
+
+
+def enum_predicate(func):
+    """For a bool function over an enumeration: the set of enumerators it answers true for, or None when the shape is not one of
+    `switch { case A: case B: return true; default: return false; }` / `return x == A || x == B ...`."""
+    m = switch_map(func)
+    if m and all(isinstance(v, bool) for v in m.values()):
+        return {k for k, v in m.items() if v is True}
+    ens = set()
+    for e in func.events("cmp"):
+        if e.get("op") == "==" and isinstance(e.get("rconst"), str) and e["rconst"].startswith("e:"):
+            ens.add(e["rconst"][2:])
+        elif e.get("op") not in ("==",):
+            return None
+    for b in func.blocks.values():
+        t = b.term
+        if t and t.get("cmp") == "==" and isinstance(t.get("rconst"), str) and t["rconst"].startswith("e:"):
+            ens.add(t["rconst"][2:])
+        elif t and t.get("cmp") not in (None, "=="):
+            return None
+    rets = [e for e in func.events("return")]
+    if ens and rets and all(e.get("const") in (None, True, False) for e in rets):
+        return ens
+    return None
